@@ -562,9 +562,14 @@ def property_checks(spec, res, first_only=False) -> list[Failure]:
             all_finite = False
             fail("mask", "fitted periods are not exactly the periods with complete data", o["fitted"], want, v)
             continue
+        Rw_all = np.hstack([R[:, w], Rd])
+        if Rw_all.shape[1] < Rw_all.shape[0] or not np.all(np.isfinite(Rw_all)) \
+                or not np.linalg.cond(Rw_all @ Rw_all.T) < 1e12:
+            all_finite = False
+            continue          # fewer observations than regressors / rank deficient: outside the property (full rank assumed)
         if not coefficients_finite(o):
             all_finite = False
-            if spec["omit_missing"]:
+            if spec["omit_missing"] and nfit - (m + k if spec["dof"] else 0) > 0:
                 fail("estimate:nonfinite", "non-finite estimates from complete fitted columns", None, None, v)
             continue
         beta = np.hstack([A, B.reshape(n, m), c.reshape(n, 1)[:, :k]])
